@@ -2,8 +2,9 @@ import Secp.Proofs.ScalarEnc
 import Secp.Proofs.Fermat
 import Secp.Proofs.ScalarApiTiesArith
 import Secp.Proofs.ScalarApiTiesTests
-import Secp.Proofs.ScalarCodecTies
+import Secp.Proofs.ScalarInvertTies
 import Secp.Proofs.MiscTies
+import Secp.Proofs.PowTies
 /-!
 # C06 — scalar arithmetic is exact arithmetic modulo the group order
 
